@@ -230,7 +230,10 @@ func (w *World) AppState() consensus.AppState {
 		give(u.Addr)
 	}
 	for _, u := range w.SecpUsers {
-		give(u.Addr)
+		// OLT only: the wrapped currencies of the genesis accounts are what the cross-chain models start from
+		if v, ok := w.UserBalance["OLT"]; ok {
+			st.Balances = append(st.Balances, consensus.BalanceState{Address: u.Addr, Currency: "OLT", Amount: amt(v)})
+		}
 	}
 	for _, v := range w.Vals {
 		give(v.Stake.Addr)
